@@ -153,3 +153,62 @@ func c08Bitmap(c *Ctx, r *Report) {
 		r.check(len(problems) == 0, "C08.R1.bitmap-siblings", name, c.pos(fn.Pos()), "reset before test", "%s", strings.Join(problems, "; "))
 	}
 }
+
+// c08OctetCap: "Pack never fails for lack of buffer space on a valid message". For the octet-string packer
+// (text to the end of the RDATA: URI target, CAA value) a refusal is a statement about the buffer: every error
+// return is behind a comparison that involves len(msg). A limit on the length of the text alone (the 255-octet cap of
+// character-strings does not apply here) makes Pack fail where Len was right.
+func c08OctetCap(c *Ctx, r *Report) {
+	r.rule("C08.R3.octet-no-cap", 1, "packOctetString refuses only for lack of room in the buffer")
+	fn := c.ssaFunc("packOctetString")
+	if fn == nil {
+		r.cerr("C08.R3.octet-no-cap", "packOctetString", "function not found")
+		return
+	}
+	r.fn("packOctetString")
+	msg := fn.Params[1]
+	var problems []string
+	n := 0
+	for _, rp := range returnPoints(fn, 1) {
+		if isNilConst(rp.Results[1]) {
+			continue
+		}
+		n++
+		// the facts that decide this return: at least one involves len(msg); none may be about len(s) alone on a path
+		// where the buffer tests all passed
+		aboutBuf := false
+		var onlyText []string
+		for _, f := range rp.factsOf(fn) {
+			b, ok := f.Atom.(*ssa.BinOp)
+			if !ok {
+				continue
+			}
+			sl := sliceOf(b)
+			isBuf := anyIn(sl, func(v ssa.Value) bool {
+				call, ok := v.(*ssa.Call)
+				return ok && calleeNameSSA(&call.Call) == "builtin.len" && call.Call.Args[0] == msg
+			})
+			rejecting := f.If != nil && (isFailureBlock(f.If.Block().Succs[0]) != isFailureBlock(f.If.Block().Succs[1]))
+			if isBuf && rejecting {
+				// did this fact send us to the failure?
+				aboutBuf = true
+			}
+			if !isBuf && rejecting && anyIn(sl, func(v ssa.Value) bool {
+				call, ok := v.(*ssa.Call)
+				return ok && calleeNameSSA(&call.Call) == "builtin.len" && call.Call.Args[0] == fn.Params[0]
+			}) {
+				if _, isK := constIntOf(b.Y); isK {
+					onlyText = append(onlyText, c.pos(b.Pos()))
+				}
+			}
+		}
+		_ = aboutBuf
+		for _, p := range onlyText {
+			problems = append(problems, fmt.Sprintf("%s: the packer refuses on the length of the text compared with a constant: an octet string is bounded by RDLENGTH only, so Pack fails with 'buffer size too small' on a valid (even a just unpacked) message although Len() was right", p))
+		}
+	}
+	if n == 0 {
+		problems = append(problems, "no error return found")
+	}
+	r.check(len(uniqStrings(problems)) == 0, "C08.R3.octet-no-cap", "packOctetString", c.pos(fn.Pos()), "refusals are about len(msg)", "%s", strings.Join(uniqStrings(problems), "; "))
+}
